@@ -89,6 +89,32 @@ CHECKS['C13'] = dict(
     technique='machine-checked proof (Coq) over code regenerated from the source + differential testing against pickle',
 )
 
+CHECKS['C14'] = dict(
+    text=('Proof over a stack-machine model of RemoteState (state.py) driven by the event order of unpickling (Pickle/State.v). The property is '
+          'FALSE of the current code and is recorded as known findings; the theorems are (a) C14_partial_chains: for chains of opt-in objects of '
+          'ANY depth (each with at most one direct opt-in child, classes defining __setstate__) the load succeeds, every instance is restored '
+          'exactly once with its own state, children first, and the per-thread stack returns to its initial state; (b) refutation theorems with '
+          'witnesses (two siblings, one child under two names, class without __setstate__) that the harness replays on the implementation. '
+          'Generated graphs (containers, plain holders, sharing, cycles, up to 4 opt-in instances) are run through the real dumps/loads and '
+          'compared with the model; the specification of C14 is evaluated directly on every run.'),
+    design='5/C14',
+    note=('Known findings: siblings / same child under two names (AssertionError), opt-in class without __setstate__ (AttributeError). The theorem '
+          'covers chains only; container-held, plain-held, shared and cyclic shapes are covered by the differential harness, not by a theorem. The '
+          'model is hand-written and pinned to state.py / remote_reduce by tools/pin.py. ' + COMMON_NOTE),
+    technique='machine-checked proof (Coq) on the working domain + refutation witnesses + differential correspondence',
+)
+CHECKS['C15'] = dict(
+    text=('Same model as C14 with the heap of patch dictionaries. Theorems: no residue after loading a chain of any depth (partial), refutation '
+          'witnesses for misdelivery (container-held object takes the top-level patch) and for the in-place modification of nested caller '
+          'dictionaries. The harness runs graphs x patch dictionaries (top level, existing / non-existing children, nested, reused), call histories '
+          'with failing calls compared against the same call on a fresh thread, and concurrent loads, against the model and the specification.'),
+    design='5/C15',
+    note=('Known findings: misdelivery to objects held through containers / plain objects / memo references, mutation of patch dictionaries nested '
+          'two or more levels, plus the C14 findings. The positive statement with patches (patched chain = apply_patches) is checked by the '
+          'differential harness and the oracle, not yet by a theorem. ' + COMMON_NOTE),
+    technique='machine-checked refutations and partial proof (Coq) + differential correspondence with a direct oracle',
+)
+
 NOT_YET = {}
 
 
